@@ -23,6 +23,8 @@ pub enum KSel {
     MaxMinus1,
     MaxMinusRem,
     Any(usize),
+    /// a fraction of the remaining count (lands anywhere inside the remaining range)
+    Frac(u16),
 }
 
 #[derive(Clone, Copy, Debug, Hash, PartialEq, Eq, Serialize, Deserialize)]
@@ -65,6 +67,7 @@ fn resolve(k: KSel, rem: usize) -> usize {
         KSel::MaxMinus1 => usize::MAX - 1,
         KSel::MaxMinusRem => usize::MAX - rem,
         KSel::Any(x) => x,
+        KSel::Frac(f) => (f as usize * (rem + 1)) >> 16,
     }
 }
 
@@ -160,6 +163,7 @@ fn arb_ksel() -> impl Strategy<Value = KSel> {
         1 => Just(KSel::MaxMinus1),
         1 => Just(KSel::MaxMinusRem),
         1 => any::<usize>().prop_map(KSel::Any),
+        4 => any::<u16>().prop_map(KSel::Frac),
     ]
 }
 
@@ -181,13 +185,13 @@ impl Property for C17 {
         "C17"
     }
     fn rule(&self) -> String {
-        "Cases (stateful): a vector (any zoo type/provenance, length <=70 quick / 300 thorough), an iterator source (iter() | (&v).into_iter(), optionally .rev()), a sequence of 0..25 calls over next, next_back, nth(k), nth_back(k), size_hint with k in {0..5, rem-1, rem, rem+1, usize::MAX, usize::MAX-1, usize::MAX-rem, arbitrary} (rem = items remaining at call time), then a terminal count | last | collect | drain-and-keep-calling. Oracle: std::slice::Iter over the model bits driven by the same calls, every return value compared; the vector passes the battery afterwards (iteration does not modify it). Enumerated: all call sequences of length <=4 over a 7-call alphabet for every n<=5, all four sources, on 3 types. Non-trivial: items were consumed from both ends and at least one nth/nth_back with k>0 ran on a partially consumed iterator. Distinct by hash of the case.".into()
+        "Cases (stateful): a vector (any zoo type/provenance, length <=200 quick / 600 thorough), an iterator source (iter() | (&v).into_iter(), optionally .rev()), a sequence of 0..25 calls over next, next_back, nth(k), nth_back(k), size_hint with k in {0..5, rem-1, rem, rem+1, usize::MAX, usize::MAX-1, usize::MAX-rem, a fraction of rem, arbitrary} (rem = items remaining at call time), then a terminal count | last | collect | drain-and-keep-calling. Oracle: std::slice::Iter over the model bits driven by the same calls, every return value compared; the vector passes the battery afterwards (iteration does not modify it). Enumerated: all call sequences of length <=4 over a 7-call alphabet for every n<=5, all four sources, on 3 types. Non-trivial: items were consumed from both ends and at least one nth/nth_back with k>0 ran on a partially consumed iterator. Distinct by hash of the case.".into()
     }
     fn random_cases(&self, tier: Tier) -> u64 {
         tier.pick(300000, 9600000)
     }
     fn strategy(&self, tier: Tier) -> BoxedStrategy<C17Case> {
-        let nmax = tier.pick(70, 300);
+        let nmax = tier.pick(200, 600);
         (arb_operand(tier), any::<u16>(), any::<bool>(), any::<bool>(), vec(arb_call(), 0..25), 0usize..4).prop_map(move |(mut a, f, into_iter, rev, calls, t)| {
             if a.len() > nmax {
                 a.bits.0.truncate(frac(f, nmax + 1));
